@@ -7,7 +7,7 @@ import struct
 
 import vlib
 
-MODEL_VO = ['Mtz/Header.vo', 'Mtz/Data.vo']
+MODEL_VO = ['Mtz/Header.vo', 'Mtz/Data.vo', 'Mtz/RowBuf.vo']
 
 
 # short sanitizer reports: the SUMMARY line must survive vlib's 1500-character tail
@@ -30,7 +30,7 @@ def gen_tables():
 
 def harness():
     return vlib.build_exe('h_mtz', [vlib.ROOT + '/harness/h_mtz.cpp'] +
-                          vlib.repo_src('mtz.cpp', 'symmetry.cpp', 'sprintf.cpp', 'gz.cpp'))
+                          vlib.repo_src('mtz.cpp', 'mtz2cif.cpp', 'intensit.cpp', 'eig3.cpp', 'read_cif.cpp', 'json.cpp', 'symmetry.cpp', 'sprintf.cpp', 'gz.cpp'))
 
 
 def driver():
@@ -229,3 +229,79 @@ def gen_unfit(rng, s):
     elif k == 'valm':
         s.valm = rng.choice([f32bits(1e-10), f32bits(3.4e38), f32bits(1.2345678), 0x7f800000])
     return s
+
+
+# ---------------------------------------------------------------- C18: MTZ -> SF-mmCIF -> MTZ cases
+
+# (label alternatives, type) groups of the default merged specification, in its order
+CONV_GROUPS = [
+    ([('FREE', 'I'), ('RFREE', 'I'), ('FREER', 'I'), ('FreeR_flag', 'I'), ('R-free-flags', 'I'), ('FreeRflag', 'I')], None),
+    ([('IMEAN', 'J'), ('I', 'J'), ('IOBS', 'J'), ('I-obs', 'J')], 'Q'),
+    ([('I(+)', 'K'), ('IOBS(+)', 'K'), ('I-obs(+)', 'K'), ('Iplus', 'K')], 'M'),
+    ([('I(-)', 'K'), ('IOBS(-)', 'K'), ('I-obs(-)', 'K'), ('Iminus', 'K')], 'M'),
+    ([('F', 'F'), ('FP', 'F'), ('FOBS', 'F'), ('F-obs', 'F')], 'Q'),
+    ([('F(+)', 'G'), ('FOBS(+)', 'G'), ('F-obs(+)', 'G'), ('Fplus', 'G')], 'L'),
+    ([('F(-)', 'G'), ('FOBS(-)', 'G'), ('F-obs(-)', 'G'), ('Fminus', 'G')], 'L'),
+]
+CONV_SINGLES = [[('DP', 'D'), ('SIGDP', 'Q')], [('FC', 'F')], [('PHIC', 'P')], [('FOM', 'W')],
+                [('HLA', 'A'), ('HLB', 'A'), ('HLC', 'A'), ('HLD', 'A')],
+                [('FWT', 'F'), ('PHWT', 'P')], [('2FOFCWT', 'F'), ('PH2FOFCWT', 'P')],
+                [('DELFWT', 'F'), ('PHDELWT', 'P')], [('FOFCWT', 'F'), ('PHFOFCWT', 'P')]]
+
+
+def gen_conv(rng, force=None):
+    """One conversion case: subset of the labels of the default specification (or a custom spec)."""
+    force = force or {}
+    cols = []
+    for alts, sig in CONV_GROUPS:
+        if rng.random() < 0.5:
+            lab, ty = rng.choice(alts)
+            cols.append((lab, ty))
+            if sig and rng.random() < 0.8:
+                cols.append(('SIG' + lab, sig))
+    used_f = any(l in ('FWT', '2FOFCWT') for l, _ in cols)
+    for grp in CONV_SINGLES:
+        if rng.random() < 0.35:
+            if grp[0][0] in ('2FOFCWT', 'FWT') and any(l in ('FWT', '2FOFCWT') for l, _ in cols):
+                continue
+            if grp[0][0] in ('DELFWT', 'FOFCWT') and any(l in ('DELFWT', 'FOFCWT') for l, _ in cols):
+                continue
+            cols += grp
+    if 'cols' in force:
+        cols = force['cols']
+    spec = force.get('spec', [])
+    if not spec and rng.random() < 0.3 and cols:
+        # custom spec lines for the columns present, with assorted (valid) formats incl. wide ones
+        fmts = ['', '', 'g', '.5g', '.3f', 'f', '.10f', '12.4f', '_10.2f', '-12.5e', '+.4g', '32.3f', '.15f', '#g', '20.12e', 'e']
+        tags = {}
+        spec = ['H H index_h', 'K H index_k', 'L H index_l']
+        known = {'FREE': 'status', 'RFREE': 'status', 'FREER': 'status', 'FreeR_flag': 'status', 'R-free-flags': 'status', 'FreeRflag': 'status'}
+        tagmap = {'J': 'intensity_meas', 'Q': None, 'F': 'F_meas_au', 'P': 'phase_calc', 'W': 'fom', 'D': 'pdbx_anom_difference'}
+        seen = set()
+        for lab, ty in cols:
+            if ty == 'I':
+                spec.append('%s I status S' % lab)
+                continue
+            tag = {'IMEAN': 'intensity_meas', 'I': 'intensity_meas', 'IOBS': 'intensity_meas', 'I-obs': 'intensity_meas',
+                   'F': 'F_meas_au', 'FP': 'F_meas_au', 'FOBS': 'F_meas_au', 'F-obs': 'F_meas_au', 'FC': 'F_calc',
+                   'PHIC': 'phase_calc', 'FOM': 'fom', 'DP': 'pdbx_anom_difference', 'SIGDP': 'pdbx_anom_difference_sigma',
+                   'FWT': 'pdbx_FWT', 'PHWT': 'pdbx_PHWT', 'DELFWT': 'pdbx_DELFWT', 'PHDELWT': 'pdbx_DELPHWT',
+                   'HLA': 'pdbx_HL_A_iso', 'HLB': 'pdbx_HL_B_iso', 'HLC': 'pdbx_HL_C_iso', 'HLD': 'pdbx_HL_D_iso'}.get(lab)
+            if lab.startswith('SIG') and ty == 'Q' and lab[3:] in ('IMEAN', 'I', 'IOBS', 'I-obs'):
+                tag = 'intensity_sigma'
+            if lab.startswith('SIG') and ty == 'Q' and lab[3:] in ('F', 'FP', 'FOBS', 'F-obs'):
+                tag = 'F_meas_sigma_au'
+            if tag is None or tag in seen:
+                continue
+            seen.add(tag)
+            spec.append(('%s %s %s %s' % (lab, ty, tag, force.get('fmt', rng.choice(fmts)))).strip())
+    w = [str(force.get('skip_empty', int(rng.random() < 0.3))), str(force.get('trim', rng.choice([0, 0, 0, 3, 5]))),
+         str(force.get('less_anom', rng.choice([0, 0, 0, 1, 2]))), str(force.get('free', rng.choice([-1, -1, 0, 1, 5]))),
+         str(force.get('nrefl', rng.choice([0, 1, 2, 5, 8, 9, 30, 100, 400]))), str(rng.getrandbits(40)),
+         str(force.get('mode', rng.choice([0, 0, 1, 1, 2, 3])))]
+    w.append(str(len(cols)))
+    for lab, ty in cols:
+        w += [hx(lab), str(ord(ty))]
+    w.append(str(len(spec)))
+    w += [hx(l) for l in spec]
+    return ' '.join(w)
